@@ -317,14 +317,23 @@ type Obs struct {
 	Arm       string // per cleartext read A/U, then "|" and the summary of the reads below TLS
 	Srv       string
 	LastVerb  string
-	Positions int    // number of script decisions the server consumed (command positions incl. AUTH steps)
-	Ended     bool   // the server side ended without being forced (the client closed, or the server closed itself)
-	Hung      bool   // the watchdog had to tear the case down
-	HungCall  string // the public call that did not return within the bound
+	Positions int        // number of script decisions the server consumed (command positions incl. AUTH steps)
+	Ended     bool       // the server side ended without being forced (the client closed, or the server closed itself)
+	Hung      bool       // the watchdog had to tear the case down
+	HungCall  string     // the public call that did not return within the bound
+	Arms      int        // SetDeadline calls on the tracked connection (arming points passed)
+	Spent     int        // deadlines waited out: timeouts of a read made under a deadline that had not expired before
+	Calls     []CallTime // wall time of every public call
 	Elapsed   time.Duration
 	Clear     []byte // mem: bytes the client wrote before its first TLS record; tcp: first raw bytes the server read
 	AllTLS    bool   // tcp: the raw byte stream starts with a TLS handshake record
 	Unarmed   int    // number of blocking reads made without a deadline
+}
+
+// CallTime is the wall time one public call took.
+type CallTime struct {
+	Name    string
+	Elapsed time.Duration
 }
 
 // Observable renders exactly what the model driver prints for the case.
@@ -342,7 +351,7 @@ func (o Obs) Observable(c Case) string {
 	if c.Net() {
 		return fmt.Sprintf("%s ended=%d srv=%s", rs, b(o.Ended), o.Srv)
 	}
-	return fmt.Sprintf("%s closes=%d open=%d arm=%s srv=%s", rs, o.Closes, b(o.Opened && !o.Closed), o.Arm, o.Srv)
+	return fmt.Sprintf("%s closes=%d open=%d arm=%s arms=%d spent=%d srv=%s", rs, o.Closes, b(o.Opened && !o.Closed), o.Arm, o.Arms, o.Spent, o.Srv)
 }
 
 var errDialRefused = errors.New("dialx: connection refused (scripted)")
@@ -646,9 +655,11 @@ func RunWith(c Case, p *PKI, timeout time.Duration, build func(transport ...mail
 	ctx := context.Background()
 	call := func(name string, f func() error) (error, bool) {
 		ch := make(chan error, 1)
+		tc := time.Now()
 		go func() { ch <- f() }()
 		select {
 		case err := <-ch:
+			o.Calls = append(o.Calls, CallTime{name, time.Since(tc)})
 			return err, true
 		case <-time.After(Bound(timeout)):
 			o.Hung, o.HungCall = true, name
@@ -831,13 +842,20 @@ func RunWith(c Case, p *PKI, timeout time.Duration, build func(transport ...mail
 	}
 
 	if memClient != nil {
-		set, tlsPhase := false, false
+		set, tlsPhase, freshDL := false, false, false
 		var clear strings.Builder
 		anyA, anyU := false, false
 		for _, op := range memClient.Ops() {
 			switch op.Kind {
 			case 'D':
+				if op.Dir == 'W' {
+					continue // a write deadline (crypto/tls sets one around its close_notify alert): reads are not affected
+				}
 				set = !op.Zero
+				if set {
+					o.Arms++
+					freshDL = true
+				}
 			case 'W':
 				if op.Err == "" && !tlsPhase {
 					if len(op.Data) >= 2 && op.Data[0] == 0x16 && op.Data[1] == 0x03 {
@@ -849,6 +867,10 @@ func RunWith(c Case, p *PKI, timeout time.Duration, build func(transport ...mail
 			case 'R':
 				if op.Err == "EOF" || op.Err == "closed" {
 					continue
+				}
+				if op.Err == "timeout" && freshDL {
+					o.Spent++
+					freshDL = false
 				}
 				if !set {
 					o.Unarmed++
